@@ -96,7 +96,8 @@ def exhaustive_plan(quick):
     # E3: copy-on-write: all sequences of set/del/freeze/clone/drop over three handles starting from a
     #     shared height-2 tree
     plan.append(("E3-cow-histories", 1,
-                 dict(ops=tset(["set", "del", "freeze", "clone", "drop"]), maxkey=7, opkeys="= " + tset([1, 4, 7]),
+                 dict(ops=tset(["set", "del", "freeze", "clone", "drop"]), maxkey=7,
+                      opkeys="= " + tset([1, 4, 7] if quick else [1, 7]),
                       loads="LoadH2", shared=tset([True]), maxhist=3 if quick else 4)))
     # E4: cursors kept open across mutations: even keys loaded, odd keys are gaps
     plan.append(("E4-cursor-histories", 1 if quick else 2,
@@ -128,10 +129,10 @@ def exhaustive_plan(quick):
                       loads="LoadTall4", initts=tset([4]), shared=tset([True]), maxhist=1 if quick else 2)))
     # E8: deletes of MISSING keys and failing delete_exact right where a merge at the root is possible
     #     (a root of one key over two leaves that are minimal or one delete away from it), on a COW clone
-    plan.append(("E8-missing-key-deletes-at-root", 2 if quick else 6,
+    plan.append(("E8-missing-key-deletes-at-root", 2,
                  dict(ops=tset(["del", "delx"]), maxkey=7, handles=tset([1, 2]), ophandles=tset([2]), opkeys="<- SimKeys",
                       loads="LoadRootMerge", shared=tset([True]), maxhist=2 if quick else 3,
-                      delforms=tset(["item", "key", "discard"]))))
+                      delforms=tset(["item", "key", "discard"] if quick else ["key", "discard"]))))
     plan.append(("E8b-missing-key-deletes-at-root-t4", 2 if quick else 6,
                  dict(ops=tset(["del", "delx"]), maxkey=9, handles=tset([1, 2]), ophandles=tset([2]), opkeys="<- SimKeys",
                       loads="LoadRootMerge4", initts=tset([4]), shared=tset([True]), maxhist=2,
